@@ -589,11 +589,23 @@ def _power(b, e):
 
 
 def _floor(v):
-    """floor of a Sym as a Python int, forking over the feasible integers."""
+    """floor of a Sym as a Python int, forking over the feasible integers.
+
+    Bounded values (window sizes, counts) are enumerated completely.  For a value the path condition does not
+    bound (e.g. an arbitrary real stored into an integer array) only the cases floor(v) in {0, 1, -1, 2, -2}
+    are explored and the remaining ones are cut with the run marked as not exhaustive."""
     if v.is_const():
         return math.floor(v.const())
+    ctx = CUR
+    cap = ctx.int_cap
+    unbounded = ctx.check(Or(v > cap, v < -cap)) != "unsat"
+    if unbounded:
+        for k in (0, 1, -1, 2, -2):
+            if bool(And(v >= k, v < k + 1)):
+                return k
+        ctx.ex.int_cases_cut += 1
+        raise PathAbort()
     k = 0
-    cap = CUR.int_cap
     if bool(v >= 0):
         while bool(v >= k + 1):
             k += 1
@@ -1120,6 +1132,7 @@ class Explorer:
         self.reached = set()
         self.reach_checked = False
         self.margin_fn = None
+        self.int_cases_cut = 0
         self.collect_depth = None   # cut paths at this many decisions and hand the subtrees out as `roots`
         self.roots = []
 
